@@ -20,8 +20,10 @@ MANIFEST = dict(
          "concatenation. Proof: the loop over A++B is the loop over A continued over B (run_append); re-initialising the per-call locals is invisible "
          "because the number-scanner flags are a function of the saved text (NumInv, preserved by every dispatch), no UTF-8 sequence is pending at a "
          "'continue', and `c` is only tested for NUL. The model is tied to the code by the differential run, which also evaluates the property "
-         "directly on the implementation (split vs one-shot on every generated split). The stream clause (resume after success at the reported end) "
-         "is decided by the differential run only.",
+         "directly on the implementation (split vs one-shot on every generated split). The stream clause is the theorem `stream_resume_like_new` "
+         "(+ `stream_next_document`): after any call that returned a value, from any reachable tokener, every later sequence of calls returns what a "
+         "tokener fresh from json_tokener_new_ex returns (simulation relation Eqv over the scratch fields that are dead between values; invariant "
+         "HsInv: no surrogate is pending outside the \\\\u states); the differential run also resumes generated streams at the reported end position.",
     note="Trusted: Lean kernel + propext/Classical.choice/Quot.sound; tools/extract; harness/tok.c + Driver/Tok.lean; the hand-written model "
          "(compared with the implementation field by field after every call).",
     technique="Lean 4 proof (simulation between split and one-shot runs; invariant NumInv) + model/implementation correspondence run",
